@@ -2,7 +2,8 @@
 """Confirm a seeded breaking change delivered by a sub-agent and, if it is valid, keep it under
 /verif/seeded/<ID>-<n>/ (patch.diff, demonstration, meta.json).
 
-usage: confirm_seed.py <ID> <n>     (reads /tmp/seed/<ID>/out/<n>)
+usage: confirm_seed.py <ID> <n> [outdir [destn]]   (reads /tmp/seed/<ID>/<outdir>/<n>, default outdir=out;
+                                                     stores as /verif/seeded/<ID>-<destn>, default destn=n)
 
 Confirms, in a scratch worktree of /repo outside /repo and /verif that is removed afterwards:
   1. the demonstration passes on the unmodified tree,
@@ -20,7 +21,9 @@ def run(cmd, cwd, timeout=1500):
 
 def main():
     pid, n = sys.argv[1], sys.argv[2]
-    src = f"/tmp/seed/{pid}/out/{n}"
+    outdir = sys.argv[3] if len(sys.argv) > 3 else "out"
+    destn = sys.argv[4] if len(sys.argv) > 4 else n
+    src = f"/tmp/seed/{pid}/{outdir}/{n}"
     meta = json.load(open(f"{src}/meta.json"))
     paths = [l.strip() for l in open(f"{src}/demo_path.txt") if l.strip()]
     demos = sorted(f for f in os.listdir(src) if f not in ("patch.diff", "meta.json", "demo_path.txt"))
@@ -35,7 +38,7 @@ def main():
         by = {os.path.basename(p): p for p in paths}
         if all(d in by for d in demos):
             paths = [by[d] for d in demos]
-    wt = f"/tmp/confirm/{pid}-{n}"
+    wt = f"/tmp/confirm/{pid}-{destn}"
     shutil.rmtree(wt, ignore_errors=True)
     subprocess.run(["git", "-C", "/repo", "worktree", "prune"], check=False)
     os.makedirs("/tmp/confirm", exist_ok=True)
@@ -78,7 +81,7 @@ def main():
         shutil.rmtree(wt, ignore_errors=True)
     print(json.dumps(res, indent=1))
     if res.get("confirmed"):
-        dst = f"/verif/seeded/{pid}-{n}"
+        dst = f"/verif/seeded/{pid}-{destn}"
         shutil.rmtree(dst, ignore_errors=True)
         os.makedirs(dst)
         shutil.copy(f"{src}/patch.diff", dst)
